@@ -123,3 +123,56 @@ def seeded(args) -> int:
     for row in rows:
         print(" | ".join(row), flush=True)
     return rc
+
+
+def models(args) -> int:
+    "sanity of the reference models themselves (pure python/numpy, no library)"
+    import math
+    from fractions import Fraction
+
+    import numpy as np
+
+    from mdsim.models import graph, ust
+    from mdsim.props.c08 import exact_percentile
+
+    bad = 0
+
+    def check(name, cond, detail=""):
+        nonlocal bad
+        print(("ok   " if cond else "FAIL ") + name + (" " + detail if not cond else ""))
+        if not cond:
+            bad += 1
+
+    for x, k, p in ((3.841458820694124, 1, 0.05), (18.307038053275146, 10, 0.05), (233.99426887, 200, 0.05), (23.209251158954356, 10, 0.01), (300.0, 191, 7.0e-07)):
+        v = ust.chi2_sf(x, k)
+        check(f"chi2_sf({x:.3f},{k}) ~ {p}", abs(v - p) / p < (0.02 if p > 1e-4 else 0.5), f"got {v}")
+    for (r, c), n in (((2, 2), 4), ((2, 3), 15), ((3, 3), 192), ((2, 4), 56), ((4, 4), 100352), ((5, 5), 557568000)):
+        check(f"matrix-tree count {r}x{c} = {n}", ust.n_spanning_trees(r, c) == n, str(ust.n_spanning_trees(r, c)))
+    for r, c in ((2, 2), (2, 3), (3, 3), (2, 4)):
+        trees = ust.enumerate_spanning_trees(r, c)
+        check(f"enumeration {r}x{c} matches matrix-tree", len(trees) == ust.n_spanning_trees(r, c) and len(set(trees)) == len(trees))
+        marg = ust.edge_marginals(r, c)
+        check(f"Kirchhoff marginals {r}x{c} sum to n-1", abs(sum(marg.values()) - (r * c - 1)) < 1e-9)
+        # marginals equal the enumerated frequencies
+        cnt = {e: 0 for e in marg}
+        for t in trees:
+            a = np.frombuffer(t, dtype=np.bool_).reshape(2, r, c)
+            for e in marg:
+                cnt[e] += int(a[e])
+        check(f"Kirchhoff marginals {r}x{c} equal enumerated frequencies", all(abs(cnt[e] / len(trees) - marg[e]) < 1e-9 for e in marg))
+    rng = np.random.RandomState(0)
+    okp = True
+    for _ in range(3000):
+        n = rng.randint(1, 30)
+        a = rng.randint(1, 20, size=n).tolist()
+        p = float(rng.choice([0, 10, 25, 50, 75, 100, round(rng.uniform(0, 100), 2)]))
+        q = exact_percentile(a, p)
+        if abs(float(q) - float(np.percentile(np.array(a), p))) > 1e-9:
+            okp = False
+    check("exact rational percentile agrees with numpy.percentile to 1e-9 on 3000 random inputs", okp)
+    conn = np.zeros((2, 3, 3), dtype=np.bool_)
+    conn[1, 0, 0] = conn[1, 0, 1] = conn[0, 0, 2] = conn[0, 1, 2] = True
+    check("graph: component / bfs on a corridor", graph.component_of(conn, (0, 0)) == {(0, 0), (0, 1), (0, 2), (1, 2), (2, 2)} and graph.bfs_dist(conn, (0, 0))[(2, 2)] == 4)
+    check("graph: leaving edge detected", bool(graph.wellformed_errors(np.ones((2, 2, 2), dtype=np.bool_), (2, 2))))
+    print(f"models selftest: {bad} failure(s)")
+    return 1 if bad else 0
